@@ -223,7 +223,7 @@ def units(tier, seed):
         oo.update(o or {})
         out.append(Unit('C10/' + name, 'symx.props.c10', func, kw, oo))
 
-    D, P = (2, 2) if tier == 'quick' else (3, 3)
+    D, P = (2, 2) if tier == 'quick' else (4, 3)
     for op in O.catalogue():
         if 'c14only' in op.tags:
             continue
